@@ -94,6 +94,18 @@ class _Expr(ast.NodeTransformer):
             return ast.copy_location(ast.Constant(node.left.value + node.right.value), node)
         return node
 
+    def visit_IfExp(self, node):
+        """C11: `a if X is X else b` -> a (a trivially decided test left behind by inlining a parametrised helper)."""
+        self.generic_visit(node)
+        t = node.test
+        if isinstance(t, ast.Compare) and len(t.ops) == 1 and isinstance(t.left, ast.Name) and isinstance(t.comparators[0], ast.Name) \
+                and t.left.id == t.comparators[0].id:
+            if isinstance(t.ops[0], (ast.Is, ast.Eq)):
+                return node.body
+            if isinstance(t.ops[0], (ast.IsNot, ast.NotEq)):
+                return node.orelse
+        return node
+
     def visit_JoinedStr(self, node):
         """C10: f-string -> %-format with the same template (the form every rule about message / escape templates reads).
         Only simple fields: {x}, {x!r}, {x!s}, {x:<printf-like spec>}."""
